@@ -28,9 +28,13 @@ import (
 
 // verifDisc is what the proxy's RetryHandler talks to in production
 // (services.endpointRepositoryAdapter): UpdateEndpointStatus -> repository.UpdateEndpoint.
-type verifDisc struct{ repo *discovery.StaticEndpointRepository }
+type verifDisc struct {
+	repo *discovery.StaticEndpointRepository
+}
 
-func (d verifDisc) GetEndpoints(ctx context.Context) ([]*domain.Endpoint, error) { return d.repo.GetAll(ctx) }
+func (d verifDisc) GetEndpoints(ctx context.Context) ([]*domain.Endpoint, error) {
+	return d.repo.GetAll(ctx)
+}
 func (d verifDisc) GetHealthyEndpoints(ctx context.Context) ([]*domain.Endpoint, error) {
 	return d.repo.GetHealthy(ctx)
 }
@@ -44,7 +48,7 @@ type verifOneSelector struct{}
 func (verifOneSelector) Select(ctx context.Context, eps []*domain.Endpoint) (*domain.Endpoint, error) {
 	return eps[0], nil
 }
-func (verifOneSelector) Name() string                               { return "one" }
+func (verifOneSelector) Name() string                            { return "one" }
 func (verifOneSelector) IncrementConnections(e *domain.Endpoint) {}
 func (verifOneSelector) DecrementConnections(e *domain.Endpoint) {}
 
